@@ -13,6 +13,8 @@ pub const GRID_TEXTS: &[&str] = &[
     // literal ratios
     "1/2", "-1/2", "1/3", "2/3", "-2/3", "3/2", "-3/2", "7/2", "-7/2", "5/3", "1/32767", "32767/32766", "2/4", "4/2",
     "-6/3", "0/5", "1/1", "6/4", "1/65536", "65537/65536", "2147483647/2", "1/2147483647", "-2147483648/3",
+    // neighbours closer than binary64 resolution
+    "2147483647/2147483646", "2147483646/2147483645", "-2147483647/2147483646",
     // computed representations
     "(/ 1 -2)", "(/ -1 -2)", "(/ 1/2 -1/3)", "(+ 1/2 1/2)", "(* 2 1/2)", "(- 1/2 1/2)", "(/ 4 6)", "(* 2/3 3/2)",
     "(- 1/3)", "(/ 0/1 -5)", "(/ 7 -2)", "(/ 1 3)",
